@@ -100,7 +100,7 @@ struct Session {
     std::map<long, Ent> second;              // a second handle of every entity created in the session (looked up through its parent
                                              // right after the creation): calls alternate between the two handles of an entity
     unsigned long tick = 0;
-    unsigned long closes = 0; bool twoFiles = false; bool lookBeforeClose = true;
+    unsigned long closes = 0; bool twoFiles = false; bool lookBeforeClose = true; bool manySel = true;
     std::map<std::string, long> eidOfId;     // UUID -> model eid (bound at creation, survives reopen)
     std::map<long, std::string> idOf;
     std::map<long, long> createdAt;
@@ -928,7 +928,7 @@ void closeSession(Session &s) {
     std::vector<Ent> many;
     // (on the lines that run unobserved - see touchThisLine - the session is closed without looking at it first)
     if (s.open && s.lookBeforeClose) { json pre = observe(s); for (auto &x : pre["issues"]) { std::string m = x.get<std::string>(); if (m.rfind("before close: ", 0) != 0 && s.carried.size() < 10) s.carried.push_back("before close: " + m); }
-                  if (!getenv("VERIF_NO_AUX")) aux = collectAux(s); if (!getenv("VERIF_NO_MANY") && ((s.K == 0 && s.fresh.size() <= 8) || getenv("VERIF_FORCE_MANY"))) many = collectMany(s); }     // (not on lines with ballast: see DESIGN section 8, "many handles + ballast")
+                  if (!getenv("VERIF_NO_AUX")) aux = collectAux(s); if (!getenv("VERIF_NO_MANY") && ((s.K == 0 && s.manySel && s.fresh.size() <= 8) || getenv("VERIF_FORCE_MANY"))) many = collectMany(s); }     // (not on lines with ballast: see DESIGN section 8, "many handles + ballast")
     // on every third line (by content hash): a SECOND File object on the same path is open in the process while
     // the session's File is closed; it is closed right afterwards (or right before).  Once both have returned from close() the file
     // must be released like after any close (descriptor check of the observer, reopen in every mode by the following steps).
@@ -1113,6 +1113,7 @@ json handleInner(Ctx &c, const json &rec) {
     bool touchThisLine;
     { std::string key = rec["pre"].dump() + rec["step"].dump(); unsigned long h = 1469598103934665603UL; for (unsigned char ch : key) { h ^= ch; h *= 1099511628211UL; } touchThisLine = (h / 6) % 2 == 0; }
     s.lookBeforeClose = touchThisLine || !c.opts.value("touch_retained", false);
+    { std::string key = rec["pre"].dump() + rec["step"].dump(); unsigned long h = 1469598103934665603UL; for (unsigned char ch : key) { h ^= ch; h *= 1099511628211UL; } s.manySel = (h / 36) % 4 == 0; }   // the many-handles collection: one line in four
     { std::string key = rec["pre"].dump() + rec["step"].dump(); unsigned long h = 1469598103934665603UL; for (unsigned char ch : key) { h ^= ch; h *= 1099511628211UL; }
       s.twoFiles = c.opts.value("two_files", false) && (h / 12) % 3 == 0; }
     Ent fileEnt; fileEnt.kind = "file";
